@@ -18,17 +18,19 @@ type qeInput struct {
 	Optimize  bool       `json:"optimize"`
 	SvcStrict bool       `json:"svc_strict"`
 	GrpStrict bool       `json:"grp_strict"`
+	Cluster   [][]string `json:"cluster,omitempty"` // C18: backend ids per node, the request goes to node 0
 }
 
 type qeProfile struct {
 	name                                                       string
 	pFilter, pStats, pSort, pLimit, pAuth, pBackends, pWrapped int
-	pGrouped                                                   int
+	pGrouped, pIndexLeaf                                       int
 	maxDepth, maxBackends, maxHosts, perDataset                int
 	tables                                                     []string
 	bothModes                                                  bool // run every text in both parse modes (C07)
 	downBackends                                               bool // put some backends into down state (C04)
 	roundtrip                                                  bool // C17: also run Request.String() of the parsed request
+	cluster                                                    bool // C18: answer through a two/three node in-process cluster
 	rule                                                       string
 }
 
@@ -36,18 +38,20 @@ var qeAllTables = []string{"hosts", "hosts", "hosts", "services", "services", "s
 	"commands", "timeperiods", "comments", "comments", "downtimes", "status", "hostsbygroup", "servicesbygroup", "servicesbyhostgroup"}
 
 var qeProfiles = map[string]*qeProfile{
-	"c01": {name: "c01", pFilter: 100, pStats: 0, pSort: 0, pLimit: 0, pAuth: 0, pBackends: 10, pWrapped: 30, maxDepth: 4, maxBackends: 3, maxHosts: 8, perDataset: 12, tables: qeAllTables,
+	"c01": {name: "c01", pIndexLeaf: 30, pFilter: 100, pStats: 0, pSort: 0, pLimit: 0, pAuth: 0, pBackends: 10, pWrapped: 30, maxDepth: 4, maxBackends: 3, maxHosts: 8, perDataset: 12, tables: qeAllTables,
 		rule: "generated datasets (1-3 backends, overlapping mixed-case/dotted/non-ASCII names, lists, ids beyond 8 bit, optional columns per flavour) x generated GET requests with filter trees (every operator x column type, And/Or/Negate nesting up to depth 4). non-trivial: the filter selects a proper, non-empty subset of the rows or uses a group/negation; distinct by request text+dataset"},
 	"c05": {name: "c05", pGrouped: 45, pFilter: 50, pStats: 100, pSort: 0, pLimit: 0, pAuth: 10, pBackends: 10, pWrapped: 10, maxDepth: 2, maxBackends: 4, maxHosts: 8, perDataset: 12, tables: []string{"hosts", "services", "services", "comments", "hostgroups"},
 		rule: "generated Stats programs (1-4 counters/aggregates, nested StatsAnd/StatsOr/StatsNegate, optional group-by Columns) over 1-4 backends"},
 	"c06": {name: "c06", pFilter: 40, pStats: 0, pSort: 80, pLimit: 90, pAuth: 0, pBackends: 10, pWrapped: 50, maxDepth: 1, maxBackends: 4, maxHosts: 8, perDataset: 12, tables: []string{"hosts", "hosts", "services", "services", "comments", "hostgroups", "contacts"},
 		rule: "generated Sort (0-3 keys asc/desc incl. custom variables and keys outside Columns, default order), Limit, Offset combinations over 1-4 backends with interleaving names, json and wrapped_json"},
-	"c07": {name: "c07", pGrouped: 50, pFilter: 100, pStats: 30, pSort: 10, pLimit: 10, pAuth: 0, pBackends: 0, pWrapped: 20, maxDepth: 3, maxBackends: 2, maxHosts: 8, perDataset: 10, tables: []string{"hosts", "hosts", "services", "services", "services", "comments", "hostgroups", "contacts"}, bothModes: true,
+	"c07": {name: "c07", pIndexLeaf: 50, pGrouped: 50, pFilter: 100, pStats: 30, pSort: 10, pLimit: 10, pAuth: 0, pBackends: 0, pWrapped: 20, maxDepth: 3, maxBackends: 2, maxHosts: 8, perDataset: 10, tables: []string{"hosts", "hosts", "services", "services", "services", "comments", "hostgroups", "contacts"}, bothModes: true,
 		rule: "every generated request text is parsed in both modes (ParseDefault, ParseOptimize) and evaluated on the same store; indexable shapes (name/host_name/groups/host_groups/primary key with = =~ ~ ~~) mixed with other terms, regexes with leading/trailing .* and ^...$"},
 	"c08": {name: "c08", pFilter: 40, pStats: 30, pSort: 0, pLimit: 0, pAuth: 100, pBackends: 0, pWrapped: 20, maxDepth: 2, maxBackends: 2, maxHosts: 8, perDataset: 12, tables: []string{"hosts", "services", "hostgroups", "servicegroups", "hostsbygroup", "servicesbygroup", "servicesbyhostgroup", "comments", "downtimes", "contacts", "commands"},
 		rule: "generated contact assignments x 4 authorisation settings x all tables x data and Stats requests with AuthUser and extra filters"},
 	"c17": {name: "c17", pGrouped: 25, pFilter: 90, pStats: 35, pSort: 40, pLimit: 30, pAuth: 15, pBackends: 10, pWrapped: 30, maxDepth: 3, maxBackends: 2, maxHosts: 8, perDataset: 10, tables: qeAllTables, bothModes: true, roundtrip: true,
 		rule: "every generated request (every operator x column type, nested negated groups, empty values, custom variable terms, Stats counters/aggregates incl. groupable blocks, Sort incl. custom variable keys, Limit/Offset, AuthUser) is parsed in both modes, serialised with Request.String(), parsed again and both are evaluated on the same store"},
+	"c18": {name: "c18", pGrouped: 10, pFilter: 60, pStats: 30, pSort: 50, pLimit: 40, pAuth: 10, pBackends: 25, pWrapped: 50, maxDepth: 2, maxBackends: 4, maxHosts: 6, perDataset: 10, tables: []string{"hosts", "hosts", "services", "services", "comments", "hostgroups", "contacts", "downtimes"}, cluster: true,
+		rule: "datasets of 2-4 backends distributed over 2-3 in-process lmd nodes connected through their real HTTP /query endpoint; generated data / Stats / sorted / limited requests, with and without Backends header, sent to node 0 which holds only part of the backends; expected = the model's answer for a single lmd holding all backends"},
 	"c04": {name: "c04", pFilter: 20, pStats: 20, pSort: 20, pLimit: 10, pAuth: 0, pBackends: 90, pWrapped: 70, maxDepth: 1, maxBackends: 4, maxHosts: 5, perDataset: 12, tables: append([]string{"sites", "sites"}, qeAllTables...), downBackends: true,
 		rule: "1-4 backends, random subset without data (down), all Backends header shapes (subset, unknown ids, duplicates), all tables incl. sites, json and wrapped_json"},
 }
@@ -73,6 +77,12 @@ func qeRunInputs(inputs []*qeInput, flags *verifStreamFlags, meta *vMeta, roundt
 	names := []string{}
 	var lastDS *qeDataset
 	var lmd *Daemon
+	var cluster *qeCluster
+	defer func() {
+		if cluster != nil {
+			cluster.close()
+		}
+	}()
 	dsName := ""
 	dsCount := 0
 	for i, in := range inputs {
@@ -82,7 +92,18 @@ func qeRunInputs(inputs []*qeInput, flags *verifStreamFlags, meta *vMeta, roundt
 			dsName = fmt.Sprintf("d%d", dsCount)
 			dsCount++
 			var err error
-			lmd, err = qeLoad(in.DS, qeWorkDir())
+			if cluster != nil {
+				cluster.close()
+				cluster = nil
+			}
+			if len(in.Cluster) > 0 {
+				cluster, err = qeNewCluster(in.DS, in.Cluster)
+				if err == nil {
+					lmd = cluster.lmds[0]
+				}
+			} else {
+				lmd, err = qeLoad(in.DS, qeWorkDir())
+			}
 			if err != nil {
 				lmd = nil
 			} else {
@@ -113,7 +134,16 @@ func qeRunInputs(inputs []*qeInput, flags *verifStreamFlags, meta *vMeta, roundt
 			lmd.Config.GroupAuthorization = AuthStrict
 		}
 		text := strings.Join(in.Lines, "\n") + "\n\n"
-		obs := qeRunQuery(lmd, text, in.Optimize)
+		var obs *qeObs
+		if len(in.Cluster) > 0 {
+			for _, node := range cluster.lmds {
+				node.Config.ServiceAuthorization = lmd.Config.ServiceAuthorization
+				node.Config.GroupAuthorization = lmd.Config.GroupAuthorization
+			}
+			obs = qeRunClusterQuery(lmd, text, in.Optimize)
+		} else {
+			obs = qeRunQuery(lmd, text, in.Optimize)
+		}
 		lines := []string{}
 		for _, l := range in.Lines {
 			lines = append(lines, coqStr(l))
@@ -207,10 +237,19 @@ func qeMain(args []string) int {
 				}
 			}
 			gen := &qeGen{r: rnd.fork(), ds: ds, pFilter: prof.pFilter, pStats: prof.pStats, pSort: prof.pSort, pLimit: prof.pLimit, pAuth: prof.pAuth,
-				pBackends: prof.pBackends, pWrapped: prof.pWrapped, pGrouped: prof.pGrouped, maxDepth: prof.maxDepth, tables: prof.tables, hist: meta.Histogram}
+				pBackends: prof.pBackends, pWrapped: prof.pWrapped, pGrouped: prof.pGrouped, pIndexLeaf: prof.pIndexLeaf, maxDepth: prof.maxDepth, tables: prof.tables, hist: meta.Histogram}
 			svcStrict, grpStrict := false, true
 			if prof.pAuth > 50 {
 				svcStrict, grpStrict = rnd.chance(1, 2), rnd.chance(1, 2)
+			}
+			var assign [][]string
+			if prof.cluster {
+				nNodes := 2 + rnd.intn(2)
+				assign = make([][]string, nNodes)
+				for _, bk := range ds.Backends {
+					k := rnd.intn(nNodes)
+					assign[k] = append(assign[k], bk.Key)
+				}
 			}
 			for q := 0; q < prof.perDataset && len(inputs) < flags.n; q++ {
 				text := gen.request()
@@ -218,7 +257,7 @@ func qeMain(args []string) int {
 				if prof.bothModes {
 					inputs = append(inputs, &qeInput{DS: ds, Lines: lines, Optimize: false, SvcStrict: svcStrict, GrpStrict: grpStrict})
 				}
-				inputs = append(inputs, &qeInput{DS: ds, Lines: lines, Optimize: true, SvcStrict: svcStrict, GrpStrict: grpStrict})
+				inputs = append(inputs, &qeInput{DS: ds, Lines: lines, Optimize: true, SvcStrict: svcStrict, GrpStrict: grpStrict, Cluster: assign})
 			}
 		}
 	}
